@@ -1,4 +1,6 @@
 import OasisProofs.Helpers.MkvsHash
+import OasisProofs.Helpers.MkvsCommit
+import OasisProofs.Helpers.MkvsKey
 /-
 C02 — the MKVS root hash depends only on the key/value contents.
 
@@ -9,9 +11,12 @@ collision resistance appears as the hypothesis `Function.Injective H`.
 The Go tree is tied to the model by the mkvsdrv correspondence, which compares the model's root
 hash (computed with a real SHA-512/256) byte for byte with every root `Tree.Commit` returns.
 
-Not in the model (named, not hidden): dirty flags / incremental re-hashing of `doCommit`
-(the model recomputes the hash of the whole tree), node cache and lazy loading, NodeDB backends.
-Their independence from the root is what the correspondence checks at cache capacities from 1.
+Dirty flags and the incremental re-hashing of `doCommit` (commit.go:150-242) are modelled in
+`OasisModel.Mkvs.Commit` (`CTrie`: every pointer with `Clean` and cached `Hash`; `insertC`/`removeC`
+mark dirty where insert.go/remove.go do) and proved to give the hash of the whole tree
+(`commit_hash_eq`, `incremental_commits_eq`).
+Not in the model (named, not hidden): node cache and lazy loading, NodeDB backends; their
+independence from the root is what the correspondence checks at cache capacities from 1.
 -/
 namespace OasisProofs.C02
 open OasisModel.Mkvs OasisProofs.Mkvs
@@ -110,6 +115,105 @@ theorem root_changes_with_contents (H : Bytes → Bytes) (hH : Function.Injectiv
     (hne : t₁.toList ≠ t₂.toList) : hashWith H t₁ ≠ hashWith H t₂ :=
   fun hr => hne (hashT_injective_on_wf H hH hlen t₁ t₂ h₁ h₂ b₁ b₂ hr)
 
+/-! ### incremental hashing with dirty flags -/
+
+open OasisModel.Mkvs.CTrie in
+/-- `doCommit` recomputes hashes bottom-up only for dirty pointers and trusts the cached hash of a
+clean pointer; under the invariant "a clean pointer caches the true hash of its subtree" the result
+is the Merkle hash of the whole tree, the contents are untouched, and afterwards every pointer is
+clean and the invariant holds again. -/
+theorem commit_hash_eq (H : Bytes → Bytes) (t : CTrie) (h : CInv H t) :
+    (commitC H t).2 = hashWith H t.erase ∧ (commitC H t).1.erase = t.erase ∧
+    CInv H (commitC H t).1 ∧ (commitC H t).1.isClean = true := commitC_spec H t h
+
+open OasisModel.Mkvs.CTrie in
+/-- `doInsert` / `doRemove` with their dirty marking are the plain operations on the tree without
+flags and preserve the invariant: whatever they change is marked dirty (a pointer that is still
+clean afterwards is the very pointer that was there). -/
+theorem dirty_marking_sound (H : Bytes → Bytes) (t : CTrie) (h : CInv H t) (k v : Bytes) (d : Nat) :
+    ((insertC k v t d).1.erase = (t.erase.insertAux k v d).1 ∧ CInv H (insertC k v t d).1) ∧
+    ((removeC k t d).1.erase = (t.erase.removeAux k d).1 ∧ CInv H (removeC k t d).1) := by
+  refine ⟨⟨?_, cinv_insertC H k v t d h⟩, ⟨?_, cinv_removeC H k t d h⟩⟩
+  · exact congrArg Prod.fst (erase_insertC k v t d)
+  · exact congrArg Prod.fst (erase_removeC k t d)
+
+/-- A history with commit points. -/
+inductive COp where
+  | insert (k v : Bytes)
+  | remove (k : Bytes)
+  | commit
+
+open OasisModel.Mkvs.CTrie in
+/-- The tree with flags: commits hash incrementally and clear the flags. Returns the final tree and
+the root hash of every commit. -/
+def runC (H : Bytes → Bytes) (t : CTrie) : List COp → CTrie × List Bytes
+  | [] => (t, [])
+  | .insert k v :: ops => runC H (insertC k v t 0).1 ops
+  | .remove k :: ops => runC H (removeC k t 0).1 ops
+  | .commit :: ops => let r := runC H (commitC H t).1 ops; (r.1, (commitC H t).2 :: r.2)
+
+/-- The tree without flags: every commit hashes the whole tree. -/
+def runPlain (H : Bytes → Bytes) (t : Trie) : List COp → Trie × List Bytes
+  | [] => (t, [])
+  | .insert k v :: ops => runPlain H (t.insert k v) ops
+  | .remove k :: ops => runPlain H (t.remove k) ops
+  | .commit :: ops => let r := runPlain H t ops; (r.1, hashWith H t :: r.2)
+
+/-- For every history of inserts, removes and commits — any batching — the root hashes returned by
+the incremental commits are the Merkle hashes of the whole tree at those points. -/
+theorem incremental_commits_eq (H : Bytes → Bytes) (ops : List COp) (t : CTrie) (h : CInv H t) :
+    (runC H t ops).2 = (runPlain H t.erase ops).2 ∧ (runC H t ops).1.erase = (runPlain H t.erase ops).1 := by
+  induction ops generalizing t with
+  | nil => exact ⟨rfl, rfl⟩
+  | cons op ops ih =>
+    cases op with
+    | insert k v =>
+      have e : (CTrie.insertC k v t 0).1.erase = t.erase.insert k v :=
+        congrArg Prod.fst (erase_insertC k v t 0)
+      have := ih _ (cinv_insertC H k v t 0 h)
+      rw [e] at this
+      exact this
+    | remove k =>
+      have e : (CTrie.removeC k t 0).1.erase = t.erase.remove k :=
+        congrArg Prod.fst (erase_removeC k t 0)
+      have := ih _ (cinv_removeC H k t 0 h)
+      rw [e] at this
+      exact this
+    | commit =>
+      obtain ⟨c1, c2, c3, _⟩ := commitC_spec H t h
+      have := ih _ c3
+      rw [c2] at this
+      simp only [runC, runPlain]
+      exact ⟨by rw [c1, this.1], this.2⟩
+
+/-! ### byte-level key operations (node/key.go) -/
+
+/-- `Key.Split` as Go computes it on bytes (copy, mask `0xff << (8 - sp%8)`, shifts across byte
+boundaries; `OasisModel.Mkvs.Key.split`) is `take`/`drop` on the bit string, for every well-formed
+key (`ToBytes(keyLen)` bytes, unused low bits zero) and every split point: the prefix is the first
+`sp` bits, the suffix the bits from `sp` to `keyLen`, both zero padded to bytes. These are the label
+prefix/suffix `doInsert` stores when it splits an edge. -/
+theorem key_split_eq_bits (k : Bytes) (sp keyLen : Nat) (hwf : KeyWF k keyLen) (hsp : sp ≤ keyLen) :
+    Key.split k sp keyLen =
+      (packBits ((toBits k).take sp), packBits (((toBits k).take keyLen).drop sp)) :=
+  Prod.ext (key_split_prefix k sp keyLen hwf hsp) (key_split_suffix k sp keyLen hwf hsp)
+
+/-- `Key.GetBit` (`k[bit/8] & (1 << (7 - bit%8)) != 0`) is the bit of the MSB-first bit string. -/
+theorem key_getBit_eq_bits (k : Bytes) (i : Nat) : Key.getBit k i = (toBits k).getD i false :=
+  key_getBit_eq k i
+
+/-- `Key.AppendBit` on bytes (zeroed buffer of `ToBytes(keyLen+1)` bytes, copy, set/clear with
+`0x80 >> (keyLen%8)`) is the bit-list operation used by the iterator model. -/
+theorem key_appendBit_eq_bits (k : Bytes) (keyLen : Nat) (v : Bool)
+    (hk : k.length ≤ Iter.toBytesLen (keyLen + 1)) :
+    Key.appendBit k keyLen v = Iter.appendBit k keyLen v := key_appendBit_eq k keyLen v hk
+
+/- TODO (stated, not proved): the transcriptions `Key.merge` and `Key.commonPrefixLen` equal
+   `packBits (take keyLen (toBits k) ++ take k2Len (toBits k2))` and
+   `lcp (take keyLen (toBits k)) (take k2Len (toBits k2))` for well-formed keys. Both equalities (and
+   the three proved above) are compared on every run between the real `node.Key` methods, the byte
+   transcription and the bit-list operations (mkvsdrv `-keys`). -/
+
 /-- The empty tree's root is the empty hash `H ""` (commit.go:157). -/
 theorem empty_root (H : Bytes → Bytes) : hashWith H .nil = H [] := rfl
 
@@ -125,6 +229,9 @@ def h₂ : List WOp :=
 example : (run .nil h₁).toList = (run .nil h₂).toList := by decide
 example : run .nil h₁ = run .nil h₂ := (root_history_independent id h₁ h₂ (by decide)).1
 example : WF (run .nil h₁) := run_wf h₁ .nil trivial
+example : CInv id CTrie.nil := trivial
+example : (runC id .nil [.insert [1] [2], .commit, .insert [1, 2] [], .remove [1], .commit]).2 =
+    (runPlain id .nil [.insert [1] [2], .commit, .insert [1, 2] [], .remove [1], .commit]).2 := by decide
 example : ContentsBounded (run .nil h₁).toList := by
   intro kv hkv
   have : (run .nil h₁).toList = [([], [3]), ([0x61, 0x62], [1]), ([0x61, 0x63], [5]), ([0x80], [])] := by decide
